@@ -1,7 +1,9 @@
 """C13 -- the solution set does not depend on how the model is written down (encoding coherence)."""
 from ..rules import model, optimize, engine
 
-EXPLANATION = "tmp"
+EXPLANATION = (
+    "Static analysis of encoding coherence in Problem.init (abstractly interpreted, Python level): stable in-place sort before every derivation loop with a key reading only the constraint tuple; algorithms[p], cumulative var/param bounds, props_dom_indices / props_dom_offsets slices filled from dom_indices_arr / dom_offsets_arr at the same prop_vars and the same [start:end], props_parameters, triggers obtained from the constraint's own trigger function and joined with |=; derived attributes re-created from fresh allocations; plus the offset round trip view = shared + o / write-back = view - o / solution = shared + o / tightening = value -/+ 1 - o. Not invariance of solution sets under rewrites."
+)
 
 
 def check(ctx, prog):
